@@ -39,6 +39,9 @@ def main():
     if ck.tier == "thorough":
         jobs += sysrun.product_jobs(FACTORS, {"n_particles": 6, "n_dim": 3, "target": "bimodal"}, ck.seed + 77, limit=96, n_total=48)
         jobs += sysrun.product_jobs(FACTORS, {"n_particles": 8, "support": 0.5, "ess_ratio": 3.0}, ck.seed + 777, limit=96)
+    for k, j in enumerate(jobs):
+        if k % 4 == 0:
+            j["manual_iters"] = 2   # the caller continues with sample() after run() returned
     sc, traces = sysrun.system_part(ck, "C07", jobs, nontrivial)
     cov.update(sc)
     cov.update(sysrun.selftest(next(t for t in traces if nontrivial(t))))
